@@ -342,6 +342,9 @@ func runC08(p *P, r *R) {
 		r.fail("R08.5", "anchor (*linkedBuffer).releasePreviousReadAndReserve", "", "function not found")
 	}
 	c08ReaderBufferRecycle(p, r)
+	// R08.7 read results of socket-fallback frames stay valid too: the slice handed to the stream is a copy, never a
+	// window of the connection's reused read buffer (shared with C06 R06.5 / C18 R18.6)
+	noEscapeOfEventBuffer(p, r, "R08.7")
 }
 
 // c08ReaderBufferRecycle (R08.6): recycling a stream's whole receive buffer returns the reader's pinned slices too, so
